@@ -82,6 +82,8 @@ def pda_cases(tier, seed, work, stats, fams):
         for i, st in enumerate(sample(states, k, seed)):
             sp, kp = pools[i % len(pools)]
             cases.append(dict(kind="pda", hist=tlaparse.to_json(st["hist"]), spool=sp, kpool=kp, family="PDAGen"))
+            if len(cases) % 5 == 0:
+                cases.append(dict(cases[-1], ctor=True, family="PDAGen-constructor-with-transition-function"))
     return cases
 
 
@@ -115,6 +117,20 @@ def replay(case):
     evs = []
     if case["kind"] == "pda":
         p, spec = pdah.build(case["hist"], case["spool"], case["kpool"])
+        if case.get("ctor"):
+            # the same machine handed to the constructor as a ready-made transition function (plus start state, start
+            # stack symbol and final states): it has the states and symbols its transitions use
+            from pyformlang.pda import PDA
+            from pyformlang.pda.transition_function import TransitionFunction
+            tf = TransitionFunction()
+            for key, outs in p.to_dict().items():
+                for s_to, stack_to in outs:
+                    tf.add_transition(key[0], key[1], key[2], s_to, list(stack_to))
+            sm, km = pdah.STATE_POOLS[case["spool"]], pdah.STACK_POOLS[case["kpool"]]
+            s0 = [sm[c[1]] for c in case["hist"] if c[0] == "set_start_state"]
+            z0 = [km[c[1]] for c in case["hist"] if c[0] == "set_start_stack_symbol"]
+            p = PDA(transition_function=tf, start_state=s0[-1] if s0 else None, start_stack_symbol=z0[-1] if z0 else None,
+                    final_states=set(p.final_states))
         P = pdah.project(p)
         evs.append({"op": "build", "P": P, "spec": spec})
         for op in ("to_final_state", "to_empty_stack"):
